@@ -394,7 +394,7 @@ pub fn run_one(p: &Program, tmpl: &(Image, BTreeMap<String, Vec<u8>>), prefix: &
                 monitor_step(&dir_m, &cas_m, step, &mut step_findings, prev);
             }
         };
-        sched::run_schedule(&dir, bodies, prefix, if p.vis == 1 { sched::visible_with_staging } else { sched::visible_default }, &mut monitor, Duration::from_secs(20))
+        sched::run_schedule(&dir, bodies, prefix, if p.vis == 1 { sched::visible_with_staging } else { sched::visible_default }, &mut monitor, Duration::from_secs(60))
     };
     drop(cas_m);
     let has_cleanup = p.threads.iter().flatten().any(|o| o.is_cleanup());
@@ -423,7 +423,7 @@ pub fn run_one(p: &Program, tmpl: &(Image, BTreeMap<String, Vec<u8>>), prefix: &
             label = "deadlock".into();
         }
         Outcome::Stuck { thread, label: l } => {
-            findings.push((vec!["C15"], "hang".into(), format!("thread T{thread} made no progress for 20 s after {l} (blocked outside a scheduling point while all other threads are parked)")));
+            findings.push((vec!["C15"], "hang".into(), format!("thread T{thread} made no progress for 60 s after {l} (blocked outside a scheduling point while all other threads are parked)")));
             label = "hang".into();
         }
         Outcome::Diverged(_) => {
